@@ -3,7 +3,7 @@ from ..scanner_utils import is_quote, is_space
 
 class ScanState:
     __slots__ = ('start', 'end', 'property_delimiter', 'property_start',
-        'property_end', 'expression')
+        'property_end', 'expression', 'selector_start')
 
     def __init__(self):
         self.start = -1
@@ -24,8 +24,12 @@ class ScanState:
         self.expression = 0
         "In expression context"
 
+        self.selector_start = -1
+        "Location of colon that precedes the first token, e.g. `:root`"
+
     def reset(self):
         self.start = self.end = self.property_start = self.property_end = self.property_delimiter = -1
+        self.selector_start = -1
 
 
 
@@ -113,6 +117,10 @@ def scan(source: str, callback: callable):
                     # Nothing consumed after `:`, selector ends with it
                     state.end = state.property_delimiter + 1
 
+            if state.selector_start != -1:
+                # Selector starts with colon, e.g. `:root`
+                state.start = state.selector_start
+
             if notify(TokenType.Selector):
                 return
             state.reset()
@@ -124,6 +132,9 @@ def scan(source: str, callback: callable):
             # — media query expression: `min-width: 100px`, must be inside expression context
             # Since I can’t easily detect `:` meaning for sure, we’ll update state
             # to accumulate possible property name-value pair or selector
+            if state.start == -1 and state.property_start == -1 and state.selector_start == -1:
+                # Nothing consumed before colon: it could be a selector start like `:root`
+                state.selector_start = scanner.pos - 1
             if state.property_start == -1:
                 state.property_start = state.start
             if state.end != -1:
